@@ -142,7 +142,7 @@ impl<IO> Connection<IO> {
 
             // Try to parse response data from the initialized section of the buffer, removing the
             // consumed parts from the buffer
-            let maybe_parsed = response_builder.parse(&mut self.recv_buf)?;
+            let maybe_parsed = response_builder.parse(&mut self.recv_buf);
 
             // Update the length of the initialized section to the remaining length
             self.total_received = self.recv_buf.len();
@@ -151,7 +151,7 @@ impl<IO> Connection<IO> {
             self.recv_buf.unsplit(remaining);
             self.recv_buf.resize(buf_size, 0);
 
-            if let Some(response) = maybe_parsed {
+            if let Some(response) = maybe_parsed? {
                 debug!(
                     frames = response.successful_frames(),
                     error = response.is_error(),
